@@ -293,7 +293,7 @@ pub fn replay_batch(file: &serde_json::Value, prop: &str, judge: &dyn Fn(&RunOut
 
 pub fn run_check(tier: Tier) -> Report {
     let rep = Report::new("C06", tier);
-    rep.set_rule("BatchSort and BatchVisualSort x (distance shards, voting shards) in {(1,1),(1,2),(2,2)} (thorough: (1,3)) x batch sequences (2-3 batches over 2-3 scenes with 1-2 detections per scene, a scene absent from one batch) x consumer discipline {same thread retrieves before the next submission; a second thread retrieves while the caller submits at once}, then drop; plus a fine tier (every synchronisation operation a decision point, two batches of two scenes, 2 voting threads, deviation bound iterated to 2 quick / 4 thorough): every interleaving of the predict loop, store workers, voting threads and consumer within the bound (window = whole run; bound = preemptions for the 1x1 / retrieve-then-submit configuration, otherwise departures from the deterministic default schedule i.e. delay bounding; bounds iterated 0,1,2,.. and the largest completed one reported per scenario); oracle: one result per submitted scene, one record per detection in order, per scene equal to the simple tracker up to an id bijection, no deadlock / step-cap. A third discipline that violates the proviso (submit a two-scene batch, then the next, before retrieving) must deadlock: built-in detection demo. states = executions.");
+    rep.set_rule("BatchSort and BatchVisualSort x (distance shards, voting shards) in {(1,1),(1,2),(2,2)} (thorough: (1,3)) x batch sequences (2-3 batches over 2-3 scenes with 1-2 detections per scene, a scene absent from one batch) x consumer discipline {same thread retrieves before the next submission; a second thread retrieves while the caller submits at once}, then drop; plus a fine tier (every synchronisation operation a decision point, 2 voting threads; two batches of two scenes retrieved before the next submission, deviation bound iterated to 2 quick / 4 thorough; three pipelined batches retrieved by consumer threads, bound 1 quick / 3 thorough): every interleaving of the predict loop, store workers, voting threads and consumer within the bound (window = whole run; bound = preemptions for the 1x1 / retrieve-then-submit configuration, otherwise departures from the deterministic default schedule i.e. delay bounding; bounds iterated 0,1,2,.. and the largest completed one reported per scenario); oracle: one result per submitted scene, one record per detection in order, per scene equal to the simple tracker up to an id bijection, no deadlock / step-cap. A third discipline that violates the proviso (submit a two-scene batch, then the next, before retrieving) must deadlock: built-in detection demo. states = executions.");
     rep.assume("macro-step granularity (named points: worker dequeues a command, distances queued, scene dispatched, vote begin / before each store write / before the result is sent); preemptions inside lock-protected sections are not explored");
     let mut scen = BTreeMap::new();
     let mut total = 0u64;
@@ -321,25 +321,26 @@ pub fn run_check(tier: Tier) -> Report {
     // fine tier: every synchronisation operation is a decision point (the macro-step tiers below
     // cannot see a check-then-act race between two lock sections that has no named point in it);
     // smallest harness: two batches of two scenes, two voting threads, deviation bound iterated
-    for kind in [Kind::BatchVisualSort, Kind::BatchSort] {
+    for (kind, fvariant, fdisc) in [(Kind::BatchVisualSort, 3usize, 0usize), (Kind::BatchSort, 3, 0), (Kind::BatchSort, 1, 1), (Kind::BatchVisualSort, 1, 1)] {
         let mut cfg = TrkCfg::new(kind);
         cfg.shards = 1;
         cfg.voting_shards = 2;
         cfg.max_idle = 2;
-        let bs = batches(3);
+        let bs = batches(fvariant);
         let reference = simple_reference(&cfg, &bs);
-        let slice = if tier == Tier::Quick { 6.0 } else { rep.budget() * 0.15 };
+        // the pipelined runs (consumer threads) have about twice as many decision points: one bound less
+        let slice = if tier == Tier::Quick { if fdisc == 0 { 6.0 } else { 3.0 } } else { rep.budget() * 0.1 };
         let slice_end = std::time::Instant::now() + std::time::Duration::from_secs_f64(slice);
-        let scj = json!({"config":cfg.json(),"batches_variant":3,"discipline":"retrieve-then-submit","granularity":"fine"});
+        let scj = json!({"config":cfg.json(),"batches_variant":fvariant,"discipline":(if fdisc == 0 { "retrieve-then-submit" } else { "consumer-thread" }),"granularity":"fine"});
         let mut per_bound = vec![];
         let mut completed: Option<usize> = None;
-        for bound in 0..=tier.pick(2usize, 4usize) {
+        for bound in 0..=(tier.pick(2usize, 4usize) - fdisc) {
             if std::time::Instant::now() >= slice_end {
                 break;
             }
             let ecfg = sched::ExploreCfg { mode: sched::Mode::Fine, window: (1, 2), bound, max_steps: 200_000, deadline: Some(slice_end), count_all_deviations: true, ..Default::default() };
             let (c2, b2) = (cfg.clone(), bs.clone());
-            let stats = sched::explore(&ecfg, move || run(&c2, &b2, 0), |x| match &x.outcome {
+            let stats = sched::explore(&ecfg, move || run(&c2, &b2, fdisc), |x| match &x.outcome {
                 sched::Outcome::Done(o) => {
                     if let Err((key, what)) = judge(o, &bs, &reference) {
                         rep.violation(Violation { key, what, replay: json!({"scenario":scj,"schedule":x.schedule_json()}) });
@@ -359,7 +360,7 @@ pub fn run_check(tier: Tier) -> Report {
             }
             completed = Some(bound);
         }
-        scen.insert(format!("fine/{}/d1v2/batches3", kind.name()), json!({"bound_kind":"deviations from the default schedule, every synchronisation operation a decision point","bounds":per_bound,"largest_bound_completed":completed}));
+        scen.insert(format!("fine/{}/d1v2/batches{fvariant}/discipline{fdisc}", kind.name()), json!({"bound_kind":"deviations from the default schedule, every synchronisation operation a decision point","bounds":per_bound,"largest_bound_completed":completed}));
     }
     let n_scen = scenarios.len();
     let mut min_completed = usize::MAX;
